@@ -23,7 +23,7 @@ RULE = (
 )
 ASSUMPTIONS = [
     "range / anchor tolerance 8 ulp of max(|min|,|max|) (min+(max-min) is not exactly max in floating point); midpoint tolerance 1e-12 relative",
-    "'large variance' = variance >= 64 x reference: delta within 1e-12*(max-min) of min_delta",
+    "'large variance' = variance >= 64 x reference (update factor <= 1e-19): delta within 1e-15*(max-min) + 1e-12*min_delta of min_delta; the lower range bound is checked to 4 ulp of min_delta",
     "committee inputs whose variation is 0/0 (all members exactly zero) are outside the domain and not judged",
 ]
 REQUIRED = {"update_calls": 2000, "anchor_zero": 50, "anchor_reference": 50, "anchor_large": 50, "monotone_pairs": 1000, "fallback_calls": 20, "per_coordinate_calls": 200, "in_step_calls": 10}
@@ -72,7 +72,9 @@ def judge(rec: Rec, drv, exp):
     if not np.all(np.isfinite(d)):
         rec.viol(f"C18/not-finite/{fnk}", "delta is not finite for a finite variance", wit)
         return
-    if np.any(d < lo - tol) or np.any(d > hi + tol):
+    # lower end: min + (max-min)*f with f >= 0 can never round below min, so the tolerance there is relative to min_delta
+    # (a few ulp of min), not to max_delta; upper end: min + (max-min) may exceed max by an ulp of max
+    if np.any(d < lo - 4 * np.spacing(abs(lo))) or np.any(d > hi + tol):
         rec.viol(f"C18/out-of-range/{fnk}", f"delta outside [min_delta, max_delta]: {d.min()}..{d.max()} vs [{lo},{hi}]", wit)
     span = hi - lo
     z = vv == 0
@@ -89,7 +91,7 @@ def judge(rec: Rec, drv, exp):
     big = vv >= 64 * ref
     if np.any(big):
         rec.count("anchor_large")
-        if np.any(np.abs((d[big] if d.ndim else d) - lo) > 1e-12 * span + tol):
+        if np.any(np.abs((d[big] if d.ndim else d) - lo) > 1e-15 * span + 1e-12 * abs(lo) + 4 * np.spacing(abs(lo))):
             rec.viol(f"C18/large-variance-not-min/{fnk}", "delta does not approach min_delta for variance >= 64 x reference", wit)
     exp["out"] = d.copy()
 
@@ -157,7 +159,7 @@ def run(spec):
     rng = rng_for("C18", spec["seed"], spec["j"])
     for _ in range(spec["configs"]):
         lo = float(10 ** rng.uniform(-4, 1))
-        ratio = float(rng.choice([1.0, 1.0 + 1e-9, 1.5, 3.0, 10.0, 1e3, 1e6]))
+        ratio = float(rng.choice([1.0, 1.0 + 1e-9, 1.5, 3.0, 10.0, 1e3, 1e6, 1e9, 1e13, 1e17]))
         hi = lo * ratio
         ref = float(10 ** rng.uniform(-6, 3))
         scheme = str(rng.choice(["forces", "energy"]))
